@@ -94,13 +94,7 @@ func verifC06Exec(op string) string {
 	f := strings.Fields(op)
 	switch f[0] {
 	case "reset":
-		// which FindPathConf variant is this tree? canonical witness: the key of a regexp conf used as name
-		k := "~^live/(.+)$"
-		_, _, err := conf.FindPathConf(map[string]*conf.Path{k: {Name: k, Regexp: regexp.MustCompile(k[1:])}}, k)
-		if err == nil {
-			return "1"
-		}
-		return "0"
+		return "ok" // case delimiter only
 	case "valid":
 		return verifC06NameClass(conf.IsValidPathName(verifutil.UnHexS(f[1])))
 	case "find":
